@@ -642,10 +642,10 @@ proof fn lemma_weighted_meets_vertices<W, I: Iterator<Item = usize>>(g: Adjacenc
     assert(Seq::new(g.ord() as nat, |i: int| i as usize) =~= vertex_seq(g.ord() as nat));
 }
 
-/// Outdegree::outdegree (proved in weighted_core for every W in the form `requires u < self.ord()`,
-/// `ensures r == self.row(u as int).dom().len()`): the VALUE clause of Dgo::outdegree follows; the clause `u < ord` of Dgo
-/// (returning implies u in V, i.e. the documented panic for u outside V) is NOT proved for this representation - the unit
-/// takes it as a precondition instead
+/// Outdegree::outdegree (proved in weighted_core for every W with NO precondition: `ensures u < self.ord()`,
+/// `r == self.row(u as int).dom().len()`; the safe indexing `self.arcs[u]` panics for u outside V, rule E4b): both
+/// hypotheses below are postconditions of the real method, so the value clause AND the clause `u < ord` of Dgo
+/// (returning implies u in V, i.e. the documented panic for u outside V) are closed
 proof fn lemma_weighted_meets_outdegree<W>(g: AdjacencyListWeighted<W>, u: usize, r: usize)
     requires g.wf(), u < g.ord(), r == g.row(u as int).dom().len(),
     ensures tc_outdegree(g.ord() as nat, whas(g), u, r),
